@@ -66,7 +66,10 @@ prop("C04", "c04",
 
 prop("C19", "c19",
      "cases = generated plans from every profile; recovered layouts (nested lists of registration identities) compared between the original and: an in-process rebuild, a consistent renaming of every system (unnamed stay unnamed), an injective relabelling of all resources not pinned by a static Rust type (across types and dynamic ids), a permutation of every dynamic system's read and write lists, and all of these at once. "
-     "distinct non-trivial = (plan hash, transformation) where the transformation really changed >=1 name / id / list order.")
+     "A second leg re-runs the same cases in another process (fresh ASLR / hash seeds) and in a build of the crate without the `parallel` feature and compares the (plan hash, layout hash) rows of all three. "
+     "distinct non-trivial = (plan hash, transformation) where the transformation really changed >=1 name / id / list order.",
+     quick=[shards(name="main"), {"kind": "xcfg", "name": "xcfg", "what": "layout"}],
+     thorough=[shards(name="main"), {"kind": "xcfg", "name": "xcfg", "what": "layout"}])
 
 prop("C20", "c20",
      "cases = generated builders (names with spaces, dashes, slashes, unicode; 10-60% unnamed systems; batches; empty builders); `{:?}` and `{:#?}` of every builder level (inner builders just before add_batch, the top builder before build) under catch_unwind, parsed with a strict seq!/par!/seq! grammar and compared positionally with the executed layout (shape hook + identification run): stage/group/size structure, total count, and the sanitised name at every position of a named system (any non-empty token is accepted for unnamed ones). "
@@ -85,9 +88,10 @@ prop("C13", "c13",
 prop("C05", "c05",
      "cases = generated plans (static library-typed and dynamic systems mixed, thread-local systems, batches; few hot slots so that slots have several writers) instantiated twice: a parallel twin (dispatch / dispatch_par on a pool of 1..16 under jitter, forced overlap or a random scripted interleaving of one stage) and a twin run with dispatch_seq; after every one of 2-4 dispatches the order-sensitive world digest (a, b, hist, padding of all 32 slots) and the per-system state digests must be equal; a canary pair (a != b) seen by any system is a torn value. "
      "The --exhaustive leg enumerates *every* linear extension of the fetch/body/release steps of one small stage (2x1, 3x1, 2+1 systems in quick; up to 4x1, 2x2, 3+1 in thorough) by token passing. "
+     "The xcfg leg runs the same cases in a build of the crate *without* the `parallel` feature (dispatch is then sequential by construction) and compares the final digests with the parallel twin's. "
      "distinct non-trivial = (layout hash, overlap/script evidence) where the parallel twin followed a script exactly or >=1 overlap of unordered systems was observed in its log, and some slot has >=2 writers.",
-     quick=[shards(), shards(name="exhaustive", args=["--exhaustive"])],
-     thorough=[shards(), shards(name="exhaustive", args=["--exhaustive"])])
+     quick=[shards(name="main"), shards(name="exhaustive", args=["--exhaustive"]), {"kind": "xcfg", "name": "xcfg", "what": "final world+state digest", "builds": ["nopar"]}],
+     thorough=[shards(name="main"), shards(name="exhaustive", args=["--exhaustive"]), {"kind": "xcfg", "name": "xcfg", "what": "final world+state digest", "builds": ["nopar"]}])
 
 prop("C11", "c11",
      "cases = (stage width w in 2..16, pool size w or 16, context in {user pool, default pool, inside a batch (HCtl or MultiDispatcher), async dispatcher}, with/without a preceding stage) x 30 (quick) / 100 (thorough) dispatches: the heads of all w groups rendezvous inside run (bounded 10 s); a failed rendezvous is a violation only if the control - w plain closures spawned with pool.scope on the same (or an equivalently configured default) pool - completes, otherwise inconclusive. "
@@ -127,3 +131,9 @@ prop("C17", "c17",
      "Oracles: reference registration list (first-registration order) and presence map; get(_mut) is Some <=> registered; every yielded object's self-reported address == the resource's address and its type tag == the concrete type's; iter sequences == [registration order ∩ present under dyn id 0] with model values; shared/exclusive interplay with typed fetches; the bad cast must panic with the library's message. "
      "distinct non-trivial = history hash with a repeated registration and a registered-but-absent type.",
      crash_is_violation=True)
+
+prop("C06", "c06",
+     "cases = Rust *programs*: SystemData type expressions generated by gen_c06.py, compiled against /repo and run. Families: (i) rotation - every arity 1..26 x 12 rotations of the member kinds (Read, Write, ReadExpect, WriteExpect, Option<Read>, Option<Write>, (), PhantomData, nested tuple, derived struct, Read/Write with a user-written SetupHandler), position p on its own resource A_p; (ii) random per seed - nestings to depth 3, tuples up to arity 26, derived named and tuple structs with an extra lifetime, redundant where-clauses, hand-written generic derives (type parameters, where-clauses, two lifetimes), repeated reads of one resource and (15%) deliberately conflicting members; (iii) thorough only: the full cross family, every (arity, position, kind) triple as its own type. "
+     "For each type: reads()/writes() as sets vs an independent model computed by the generator from the syntax tree; for every presence pattern (all present, each used resource absent, 3 random subsets, empty world) the fetch outcome (value / missing-resource panic / borrow-conflict panic) vs the model, the borrow state of all 26 cells probed while the value is alive (exclusive for writes, shared for reads, free otherwise) and after drop/unwind (all free); setup vs the composition of the members' setups (defaults created iff vacant, existing untouched, Option/Expect create nothing). "
+     "distinct non-trivial = normalised type expression with >=2 resource-bearing members.",
+     quick=[{"kind": "c06"}], thorough=[{"kind": "c06"}], replay_whole=True, crash_is_violation=True, level="exploration")
